@@ -69,7 +69,6 @@ def laws : CodeLaws ops where
   step_inv := by
     intro h h' hi hs
     cases hs with
-    | setAt => exact hi
     | put => exact hi
     | maybePut => exact hi
     | globPut => exact hi
